@@ -9,7 +9,7 @@ sorted).
 """
 import random
 
-from core import imp, run_model, enc_expr, build_expr
+from core import imp, run_model, enc_expr, build_expr, REPRESENTATIONS
 import algebra
 import gen
 
@@ -67,6 +67,14 @@ def check_one(tree, variant, le, L):
     pt = str(presorted(build_expr(tree), le).simplify())
     if pt != text:
         return 'the input with its operands put in ascending order simplifies to another text: %r vs %r' % (pt, text)
+    # the same tree over wrapped user objects, or over a mixture of both kinds of symbol, and its pre-sorted form
+    for like in REPRESENTATIONS:
+        vt = str(build_expr(tree, like=like).simplify())
+        if vt != text:
+            return 'the input over wrapped user objects (representation %r) simplifies to another text: %r vs %r' % (like, vt, text)
+        vt = str(presorted(build_expr(tree, like=like), le).simplify())
+        if vt != text:
+            return 'the pre-sorted input over wrapped user objects (representation %r) simplifies to another text: %r vs %r' % (like, vt, text)
     # idempotence: on the object, on a structurally rebuilt copy, and through the text
     if str(s.simplify()) != text:
         return 'simplify() is not idempotent on its result'
